@@ -27,13 +27,22 @@ except ImportError:  # run from tools/props directly
 
 CORPUS = os.path.join(vlib.VERIF, "corpus", "c07")
 QUICK_ANALYSES = "taint,taint-fs,taint-ondemand,backtrace,backtrace-fs,reachability,defers,maypanic"
-ESCAPE_QUICK = {"gonil", "goroutines", "rec"}      # quick tier: the (slow) stand-alone escape analysis only on these programs
+# quick tier: the (slow) entry points with escape analysis only on the programs whose go statements they are about
+EXTRA_QUICK = {"gonil": "escape", "goroutines": "escape"}
+# quick tier: programs with their own list of entry points.  gocallee (go/defer on every callee form) is about the escape-enabled
+# entry points; its field-sensitive variants do not return (known finding timeout:gocallee:taint-fs*) and backtrace takes ~10 x taint
+ONLY_QUICK = {"gocallee": "taint,taint-ondemand,escape,taint-escape,reachability,defers,maypanic"}
 THOROUGH_ONLY = {"bigswitch"}                      # programs on which a baseline does not return (each costs its full budget twice)
 VARIANTS = {"taint": ["taint-fs", "taint-ondemand", "taint-fs-ondemand", "taint-escape"], "backtrace": ["backtrace-fs", "backtrace-ondemand"],
             "escape": ["taint-escape"]}
 ALL_ANALYSES = ("taint,taint-fs,taint-ondemand,taint-fs-ondemand,backtrace,backtrace-fs,backtrace-ondemand,"
                 "escape,taint-escape,reachability,defers,maypanic")
 F3_KEY = "field-sensitive-accesspath-divergence"
+# corpus programs that put a value of the given concrete type in the position the escape `go`-statement switch looks at
+WITNESS_PROGRAM = {"*ssa.Builtin": "gocallee", "*ssa.Function": "gocallee", "*ssa.Global": "gocallee", "*ssa.Parameter": "gocallee",
+                   "*ssa.FreeVar": "gocallee", "*ssa.MakeClosure": "gocallee", "*ssa.Phi": "gocallee", "*ssa.Extract": "gocallee",
+                   "*ssa.Call": "gocallee", "*ssa.UnOp": "gocallee", "*ssa.Lookup": "gocallee", "*ssa.Field": "gocallee",
+                   "*ssa.TypeAssert": "gocallee", "*ssa.ChangeType": "gocallee", "*ssa.Const": "gonil", "*ssa.MultiConvert": "generics"}
 
 
 # ---------------------------------------------------------------------------------- T-gen
@@ -220,7 +229,7 @@ def diagnose_fs_timeout(d, work):
     model of the current addNext (canonical access paths) must terminate."""
     name = os.path.basename(d)
     dump = os.path.join(work, name + ".f3.dump")
-    rc, out = vlib.sh([os.path.join(vlib.BIN, "travdump"), "-novisit", "-fs", "1", "-o", dump, d], timeout=900)
+    rc, out = vlib.sh([os.path.join(vlib.BIN, "travdump"), "-novisit", "-fs", "1", "-o", dump, d], timeout=300)
     if rc != 0 or not os.path.exists(dump):
         return False, "travdump -novisit failed: " + out[-300:]
     npaths = sum(1 for l in open(dump) if l.startswith("PATH "))
@@ -301,7 +310,8 @@ def run(chk):
     allres = {}
     gens = {}
     with concurrent.futures.ThreadPoolExecutor(max_workers=max(2, min(6, vlib.NCPU // 3))) as ex:
-        futs = {ex.submit(run_entry_points, d, analyses + (",escape" if quick and os.path.basename(d) in ESCAPE_QUICK else ""), work, floor): d
+        futs = {ex.submit(run_entry_points, d, (ONLY_QUICK[os.path.basename(d)] if quick and os.path.basename(d) in ONLY_QUICK else
+                             analyses + ("," + EXTRA_QUICK[os.path.basename(d)] if quick and os.path.basename(d) in EXTRA_QUICK else "")), work, floor): d
                 for d in dirs}
         for f in concurrent.futures.as_completed(futs):
             d = futs[f]
@@ -320,7 +330,6 @@ def run(chk):
                 counts["flaky_timeout"] += 1
             counts[stt] = counts.get(stt, 0) + 1
             if stt == "panic":
-                found_concrete = True
                 # stable key: (program, normalised message, entry point).  The panic SITE is not part of the key: the same root
                 # cause surfaces at different frames depending on map iteration order (it is kept in the description and replay).
                 key = "panic:%s:%s:%s" % (program_key(d), first_line(r["detail"]), a)
@@ -329,10 +338,10 @@ def run(chk):
                 open(os.path.join(rd, "replay.txt"), "w").write(
                     "analysis entry point %s panics on program %s (raised in %s)\n\n%s\n\nre-run: /verif/build/bin/c07run -only %s %s\n"
                     % (a, name, panic_site(r["detail"]), r["detail"].replace("\\n", "\n").replace("\\t", "\t"), a, os.path.join(rd, name)))
-                chk.violation(key, "%s panics on %s: %s (raised in %s)" % (a, name, first_line(r["detail"]), panic_site(r["detail"])), rd)
+                if chk.violation(key, "%s panics on %s: %s (raised in %s)" % (a, name, first_line(r["detail"]), panic_site(r["detail"])), rd):
+                    found_concrete = True   # a NEW failing input (listed findings do not explain a broken obligation)
             elif stt == "timeout" and r.get("confirmed"):
-                found_concrete = True
-                key = "timeout:%s:%s" % (a, program_key(d))
+                key = "timeout:%s:%s" % (program_key(d), a)
                 extra = ""
                 if a in ("taint-fs", "taint-fs-ondemand"):
                     is_f3, extra = diagnose_fs_timeout(d, work)
@@ -345,7 +354,8 @@ def run(chk):
                     "analysis entry point %s does not return on program %s within %.1f s (budget = 20 x the baseline configuration of the "
                     "same program, confirmed by a re-run)\n%s\n\nre-run: /verif/build/bin/c07run -only taint,%s %s\n"
                     % (a, name, r["budget"], extra, a, os.path.join(rd, name)))
-                chk.violation(key, "%s does not terminate on %s (budget %.0f s = 20 x baseline, confirmed). %s" % (a, name, r["budget"], extra[:300]), rd)
+                if chk.violation(key, "%s does not terminate on %s (budget %.0f s = 20 x baseline, confirmed). %s" % (a, name, r["budget"], extra[:300]), rd):
+                    found_concrete = True
     if not f3_seen and any(k["property"] == "C07" and k["key"] == F3_KEY for k in vlib.load_known()):
         f3 = allres.get(os.path.join(CORPUS, "f3"), {})
         if f3.get("taint-fs", {}).get("status") in ("ok", "err"):
@@ -384,6 +394,29 @@ def run(chk):
         chk.violation("dispatch-ifnode-out-edge", "%d IfNode(s) with outgoing edges: backtrace.visit may reach its panicking default" % if_edges,
                       os.path.join(work), no_input=True)
     uncovered_now = {"%s|%s" % (t["func"], u) for t in table if t["panics"] for u in t["uncovered"]}
+    # (a) dispatch_total_partial, evaluated directly on the regenerated table (the Coq theorem says the same and no longer
+    # compiles when this fails): a panicking default clause reachable by a concrete type that is not a listed exception.
+    exc_src = open(os.path.join(vlib.COQ, "theories", "Properties", "C07.v")).read()
+    exceptions = set(re.findall(r'\("([^"]+)", "([^"]+)", "([^"]+)"\)', exc_src[exc_src.find("Definition exceptions"):exc_src.find("Definition exc_mem")]))
+    for t in table:
+        if not t["panics"]:
+            continue
+        for u in t["uncovered"]:
+            if (t["func"], t["iface"], u) in exceptions:
+                continue
+            key = "dispatch-uncovered:%s:%s" % (t["func"], u)
+            prog = WITNESS_PROGRAM.get(u)
+            rd = chk.replay_dir(key)
+            if prog and os.path.isdir(os.path.join(CORPUS, prog)):
+                shutil.copytree(os.path.join(CORPUS, prog), os.path.join(rd, prog))
+            open(os.path.join(rd, "replay.txt"), "w").write(
+                "type switch in %s (%s) on a value of interface %s panics in its default clause and has no case for the concrete type %s\n"
+                "(regenerated table coq/gen/GenInstr.v; theorem dispatch_total_partial of Properties/C07.v no longer holds).\n%s"
+                % (t["func"], t["pos"], t["iface"], u,
+                   ("program exercising such a value: %s (re-run: /verif/build/bin/c07run -only escape,taint-escape %s)\n" % (prog, os.path.join(rd, prog)))
+                   if prog else "no witness program known for this type\n"))
+            if chk.violation(key, "%s (%s): panicking default reachable by %s, which has no case" % (t["func"], t["pos"], u), rd, no_input=not prog):
+                found_concrete = found_concrete or bool(prog)
 
     chk.proof_broken(failed, found_concrete or ntie > 0)
 
